@@ -2,12 +2,19 @@
 package p19
 
 import (
+	"bytes"
+	"crypto/rand"
 	"crypto/sha256"
+	"encoding/binary"
 	"encoding/hex"
 	"fmt"
+	"io"
+	"math/big"
 	"strconv"
 	"strings"
 
+	"github.com/btcsuite/btcd/btcec/v2"
+	"github.com/btcsuite/btcd/btcec/v2/ellswift"
 	"github.com/btcsuite/btcd/v2transport"
 	"verifharness/core"
 )
@@ -87,6 +94,22 @@ func (P) Exec(line string) string {
 		return execFsc(unhx(f[2]), splitList(f[3], ","))
 	case "fsp":
 		return execFsp(unhx(f[2]), splitList(f[3], ","))
+	case "xswift":
+		return execXSwift(f[2], f[3])
+	case "xswiftinv":
+		return execXSwiftInv(f[2], f[3], atoi(f[4]))
+	case "ecdh":
+		return execEcdh(f[2], unhx(f[3]), unhx(f[4]), f[5] == "1")
+	case "create":
+		return execCreate(unhx(f[2]), unhx(f[3]))
+	case "sched":
+		return execSched(unhx(f[2]), f[3], f[4] == "1")
+	case "vec":
+		return execVec(unhx(f[2]), f[3], f[4] == "1", atoi(f[5]), unhx(f[6]), atoi(f[7]), unhx(f[8]), f[9] == "1")
+	case "pk":
+		return execPk(unhx(f[2]), f[3], f[4] == "1", splitList(f[5], ";"), f[6], splitList(f[7], ";"))
+	case "ep":
+		return execEp(f[2], f[3], unhx(f[4]), unhx(f[5]), atoi(f[6]), splitList(f[7], ","), unhx(f[8]), splitList(f[9], ";"))
 	}
 	return "bad-op"
 }
@@ -134,10 +157,6 @@ func execFsp(key []byte, msgs []string) string {
 
 // ---------------------------------------------------------------- generate
 
-func (P) Generate(g *core.Gen) {
-	genCiphers(g)
-}
-
 func genCiphers(g *core.Gen) {
 	r := g.R
 	for i := 0; i < g.N(40, 400); i++ {
@@ -176,3 +195,347 @@ func genCiphers(g *core.Gen) {
 
 func fscKey(c *v2transport.FSChaCha20) []byte         { return c.VerifKey() }
 func fspKey(c *v2transport.FSChaCha20Poly1305) []byte { return c.VerifKey() }
+
+// ---------------------------------------------------------------- ellswift
+
+var fieldP, _ = new(big.Int).SetString("fffffffffffffffffffffffffffffffffffffffffffffffffffffffefffffc2f", 16)
+
+// fieldVal parses big-endian hex (any size) and reduces it mod p, as
+// EllswiftECDHXOnly does for the two halves of an encoding.
+func fieldVal(h string) *btcec.FieldVal {
+	n, ok := new(big.Int).SetString(h, 16)
+	if !ok {
+		panic("bad hex")
+	}
+	n.Mod(n, fieldP)
+	var b [32]byte
+	n.FillBytes(b[:])
+	var fv btcec.FieldVal
+	fv.SetBytes(&b)
+	return &fv
+}
+
+func fvHex(fv *btcec.FieldVal) string {
+	b := new(btcec.FieldVal).Set(fv).Normalize().Bytes()
+	return hex.EncodeToString(b[:])
+}
+
+func execXSwift(u, t string) string {
+	x, err := ellswift.XSwiftEC(fieldVal(u), fieldVal(t))
+	if err != nil {
+		return "err"
+	}
+	return fvHex(x)
+}
+
+func execXSwiftInv(u, x string, c int) string {
+	t := ellswift.XSwiftECInv(fieldVal(u), fieldVal(x), c)
+	if t == nil {
+		return "none"
+	}
+	return fvHex(t)
+}
+
+func privFromHex(h string) *btcec.PrivateKey {
+	n, ok := new(big.Int).SetString(h, 16)
+	if !ok {
+		panic("bad hex")
+	}
+	var b [32]byte
+	n.FillBytes(b[:])
+	k, _ := btcec.PrivKeyFromBytes(b[:])
+	return k
+}
+
+func execEcdh(priv string, ellT, ellO []byte, ini bool) string {
+	var t, o [64]byte
+	copy(t[:], ellT)
+	copy(o[:], ellO)
+	k := privFromHex(priv)
+	x, err := ellswift.EllswiftECDHXOnly(t, k)
+	xs := "none"
+	if err == nil {
+		xs = hx(x[:])
+	}
+	sec, err := ellswift.V2Ecdh(k, t, o, ini)
+	ss := "none"
+	if err == nil {
+		ss = hx(sec[:])
+	}
+	return xs + " " + ss
+}
+
+// detReader replaces crypto/rand.Reader during an Exec: prefix bytes, then
+// SHA-256(seed || LE32 i) for i = 0,1,...
+type detReader struct {
+	buf  []byte
+	seed []byte
+	ctr  uint32
+}
+
+func (d *detReader) Read(p []byte) (int, error) {
+	for len(d.buf) < len(p) {
+		var c [4]byte
+		binary.LittleEndian.PutUint32(c[:], d.ctr)
+		d.ctr++
+		h := sha256.Sum256(append(append([]byte(nil), d.seed...), c[:]...))
+		d.buf = append(d.buf, h[:]...)
+	}
+	n := copy(p, d.buf)
+	d.buf = d.buf[n:]
+	return n, nil
+}
+
+func withRand(pre, seed []byte, f func()) {
+	old := rand.Reader
+	rand.Reader = &detReader{buf: append([]byte(nil), pre...), seed: seed}
+	defer func() { rand.Reader = old }()
+	f()
+}
+
+func execCreate(pre, seed []byte) (out string) {
+	withRand(pre, seed, func() {
+		k, ell, err := ellswift.EllswiftCreate()
+		if err != nil {
+			out = "err"
+			return
+		}
+		kb := k.Serialize()
+		var u, t btcec.FieldVal
+		u.SetByteSlice(ell[:32])
+		t.SetByteSlice(ell[32:])
+		x, err := ellswift.XSwiftEC(&u, &t)
+		xs := "none"
+		if err == nil {
+			xs = fvHex(x)
+		}
+		px := k.PubKey().SerializeCompressed()[1:]
+		out = hx(kb) + " " + hx(ell[:]) + " " + xs + " " + hx(px)
+	})
+	return
+}
+
+// ---------------------------------------------------------------- schedule / vectors
+
+func netOf(h string) v2transport.BitcoinNet {
+	v, err := strconv.ParseUint(h, 16, 32)
+	if err != nil {
+		panic(err)
+	}
+	return v2transport.BitcoinNet(v)
+}
+
+func execSched(secret []byte, magic string, ini bool) string {
+	p := v2transport.NewPeer()
+	if err := p.VerifCreateV2Ciphers(secret, ini, netOf(magic)); err != nil {
+		return "err"
+	}
+	s := p.VerifSession()
+	return strings.Join([]string{hx(s.SessionID), hx(s.InitiatorL), hx(s.InitiatorP), hx(s.ResponderL),
+		hx(s.ResponderP), hx(s.SendGarbageTerm), hx(s.RecvGarbageTerm)}, " ")
+}
+
+func execVec(secret []byte, magic string, ini bool, idx int, contents []byte, mult int, aad []byte, ign bool) string {
+	p := v2transport.NewPeer()
+	var w bytes.Buffer
+	p.UseReadWriter(&w)
+	if err := p.VerifCreateV2Ciphers(secret, ini, netOf(magic)); err != nil {
+		return "err"
+	}
+	for i := 0; i < idx; i++ {
+		if _, _, err := p.V2EncPacket([]byte{}, []byte{}, false); err != nil {
+			return "err"
+		}
+	}
+	b, _, err := p.V2EncPacket(bytes.Repeat(contents, mult), aad, ign)
+	if err != nil {
+		return "err:" + v2transport.VerifErrClassC19(err)
+	}
+	if len(b) <= 200 {
+		return hx(b)
+	}
+	return digest(b) + ":" + hx(b[len(b)-32:])
+}
+
+// ---------------------------------------------------------------- one endpoint on a scripted input
+
+type scriptRW struct {
+	r *bytes.Reader
+	w bytes.Buffer
+}
+
+func (s *scriptRW) Read(p []byte) (int, error)  { return s.r.Read(p) }
+func (s *scriptRW) Write(p []byte) (int, error) { return s.w.Write(p) }
+
+func keysDigest(p *v2transport.Peer) string {
+	s := p.VerifSession()
+	var all []byte
+	for _, b := range [][]byte{s.SendLKey, s.SendPKey, s.RecvLKey, s.RecvPKey, s.SendGarbageTerm, s.RecvGarbageTerm} {
+		all = append(all, b...)
+	}
+	h := sha256.Sum256(all)
+	return fmt.Sprintf("%x,%d,%d,%d,%d", h[:8], s.SendLCtr, s.SendPCtr, s.RecvLCtr, s.RecvPCtr)
+}
+
+func ints(ss []string) []int {
+	var out []int
+	for _, s := range ss {
+		out = append(out, atoi(s))
+	}
+	return out
+}
+
+// handshake runs the real handshake of one role with deterministic randomness.
+func handshake(p *v2transport.Peer, role string, net v2transport.BitcoinNet, pre, seed []byte, gLen int, decoys []int) (err error) {
+	withRand(pre, seed, func() {
+		if role == "i" {
+			err = p.InitiateV2Handshake(gLen)
+		} else {
+			err = p.RespondV2Handshake(gLen, net)
+		}
+	})
+	if err != nil {
+		return err
+	}
+	return p.CompleteHandshake(role == "i", decoys, net)
+}
+
+func execEp(role, magic string, pre, seed []byte, gLen int, decoys []string, inp []byte, acts []string) string {
+	s, _ := runEp(role, magic, pre, seed, gLen, decoys, inp, acts)
+	return s
+}
+
+func runEp(role, magic string, pre, seed []byte, gLen int, decoys []string, inp []byte, acts []string) (string, []byte) {
+	if role != "i" && role != "r" {
+		return "bad-op", nil
+	}
+	p := v2transport.NewPeer()
+	rw := &scriptRW{r: bytes.NewReader(inp)}
+	p.UseReadWriter(rw)
+	if err := handshake(p, role, netOf(magic), pre, seed, gLen, ints(decoys)); err != nil {
+		return "hs=err:" + v2transport.VerifErrClassC19(err) + " w=" + digest(rw.w.Bytes()), rw.w.Bytes()
+	}
+	out := []string{"hs=ok", "sid=" + hx(p.VerifSession().SessionID)}
+	failed := false
+loop:
+	for _, a := range acts {
+		f := strings.Split(a, ":")
+		switch f[0] {
+		case "s":
+			ln, sd, aadLen := atoi(f[1]), atoi(f[2]), atoi(f[4])
+			_, _, err := p.V2EncPacket(fill(sd, ln), fill(sd+1, aadLen), f[3] == "1")
+			if err != nil {
+				out = append(out, "tx=err:"+v2transport.VerifErrClassC19(err))
+			}
+		case "r":
+			c, err := p.V2ReceivePacket(fill(atoi(f[2]), atoi(f[1])))
+			if err != nil {
+				out = append(out, "rx=err:"+v2transport.VerifErrClassC19(err))
+				failed = true
+				break loop
+			}
+			out = append(out, "rx="+digest(c))
+		default:
+			return "bad-op", nil
+		}
+	}
+	if !failed {
+		out = append(out, "k="+keysDigest(p))
+	}
+	out = append(out, "w="+digest(rw.w.Bytes()))
+	return strings.Join(out, " "), rw.w.Bytes()
+}
+
+var _ = io.EOF
+
+// ---------------------------------------------------------------- tampering (shared semantics with the Lean driver)
+
+func take(w []byte, n int) []byte {
+	if n > len(w) {
+		n = len(w)
+	}
+	return w[:n]
+}
+
+func drop(w []byte, n int) []byte {
+	if n > len(w) {
+		n = len(w)
+	}
+	return w[n:]
+}
+
+func cat(parts ...[]byte) []byte {
+	var out []byte
+	for _, p := range parts {
+		out = append(out, p...)
+	}
+	return out
+}
+
+func tamper(w []byte, ops string) []byte {
+	if ops == "-" {
+		return w
+	}
+	for _, op := range strings.Split(ops, ",") {
+		a := strings.Split(op[1:], ":")
+		switch op[0] {
+		case 'f':
+			off, mask := atoi(a[0]), atoi(a[1])
+			if off < len(w) {
+				w = cat(w[:off], []byte{w[off] ^ byte(mask)}, w[off+1:])
+			}
+		case 't':
+			w = cat(take(w, atoi(a[0])))
+		case 'd':
+			off, n := atoi(a[0]), atoi(a[1])
+			w = cat(take(w, off), drop(w, off+n))
+		case 'u':
+			off, n := atoi(a[0]), atoi(a[1])
+			w = cat(take(w, off+n), take(drop(w, off), n), drop(w, off+n))
+		case 'x':
+			off, l1, l2 := atoi(a[0]), atoi(a[1]), atoi(a[2])
+			w = cat(take(w, off), take(drop(w, off+l1), l2), take(drop(w, off), l1), drop(w, off+l1+l2))
+		case 'i':
+			off := atoi(a[0])
+			w = cat(take(w, off), unhx(a[1]), drop(w, off))
+		default:
+			panic("bad tamper op")
+		}
+	}
+	return w
+}
+
+// ---------------------------------------------------------------- packet layer between two real peers
+
+func execPk(secret []byte, magic string, ini bool, pkts []string, tam string, recvs []string) string {
+	snd, rcv := v2transport.NewPeer(), v2transport.NewPeer()
+	var wire bytes.Buffer
+	snd.UseReadWriter(&wire)
+	if snd.VerifCreateV2Ciphers(secret, ini, netOf(magic)) != nil || rcv.VerifCreateV2Ciphers(secret, !ini, netOf(magic)) != nil {
+		return "bad-op"
+	}
+	for _, pk := range pkts {
+		f := strings.Split(pk, ":")
+		ln, sd, aadLen := atoi(f[0]), atoi(f[1]), atoi(f[3])
+		if _, _, err := snd.V2EncPacket(fill(sd, ln), fill(sd+1, aadLen), f[2] == "1"); err != nil {
+			return "bad-op"
+		}
+	}
+	w := append([]byte(nil), wire.Bytes()...)
+	out := []string{"w=" + digest(w)}
+	rcv.UseReadWriter(&scriptRW{r: bytes.NewReader(tamper(w, tam))})
+	for _, r := range recvs {
+		f := strings.Split(r, ":")
+		c, err := rcv.V2ReceivePacket(fill(atoi(f[1]), atoi(f[0])))
+		if err != nil {
+			out = append(out, "rx=err:"+v2transport.VerifErrClassC19(err))
+			return strings.Join(out, " ")
+		}
+		out = append(out, "rx="+digest(c))
+	}
+	ss, rs := snd.VerifSession(), rcv.VerifSession()
+	eq := bytes.Equal(ss.SendLKey, rs.RecvLKey) && bytes.Equal(ss.SendPKey, rs.RecvPKey) &&
+		ss.SendLCtr == rs.RecvLCtr && ss.SendPCtr == rs.RecvPCtr
+	out = append(out, fmt.Sprintf("st=%d,%d,%d,%v", rs.RecvLCtr, rs.RecvPCtr, ss.SendPCtr, eq))
+	return strings.Join(out, " ")
+}
